@@ -1,7 +1,11 @@
-(* C12 - oracle soundness, the rest: on every transcript of the MODEL the executable rules R12_sweep_bound and
-   R12_post_claim_scan_incomplete of Model/FdlOracle.v never fire.  Simulation between the bookkeeping of the
-   second monitor (visit counter g_visit, per-address marks g_last, scan list g_scan) and the GAP state of the
-   model, with the ranking function of C12_sweep_bound (visits_until) as the potential. *)
+(* C12 - oracle soundness, the rest: on every transcript of the MODEL the executable rules R12_sweep_bound,
+   R12_post_claim_scan_incomplete and R12_gap_wait_never_ends of Model/FdlOracle.v never fire.
+   Parts 1-2: simulation between the bookkeeping of the second monitor (visit counter g_visit, per-address marks
+   g_last, scan list g_scan) and the GAP state of the model, with the ranking function of C12_sweep_bound
+   (visits_until) as the potential.
+   Part 3 (liveness): exact bookkeeping of last_bus_activity / pending_bytes in the states that await a GAP reply
+   (await_poll_exact, entry_plb), simulation LW between l_ref / l_txend / l_spur of the monitor and the model,
+   theorems fdl_oracle_sound3, c12_oracle_sound_gap_wait, c12_oracle_sound. *)
 From Coq Require Import Arith FinFun.
 From PB Require Import Common Tables FdlTables Telegram Phy TokenRing Params Fdl FdlOracle FdlProofs FdlStepProofs.
 From PB Require Import C05Proofs C01Proofs C11Proofs C15Proofs C13Proofs C12Proofs.
@@ -918,3 +922,702 @@ Proof.
 Qed.
 
 End Master2.
+
+(* ------------------------------------------------------------------------------------------ *)
+(* the liveness rule R12_gap_wait_never_ends: exact bookkeeping of last_bus_activity / pending_bytes *)
+(* in the states that await a GAP reply                                                          *)
+
+Section LiveModel.
+Variable A : Type.
+Variable ops : app_ops A.
+Notation W := (world A).
+
+(* one poll of a token-holding state, with the exact effect of check_for_bus_activity *)
+Lemma token_poll_exact f now pin (apps : list A) f' o apps' calls :
+  poll ops f now pin apps = Ok (f', o, apps', calls) -> have_token (f_state f) = true \/ in_pass (f_state f) = true ->
+  ((tx_busy pin = true \/ predicted f now = true) /\ f' = mark_bus_activity f now /\ tx o = None /\ calls = [] /\
+     apps' = apps /\ rx_left o = rx pin) \/
+  (tx_busy pin = false /\ predicted f now = false /\ exists f1 w1 w',
+     check_for_bus_activity A f now (mkWorld (rx pin) None apps [] []) = (f1, w1) /\
+     C11Proofs.dispatch A ops f1 now w1 = Ok (f', w') /\
+     o = mkPhyOut (w_tx w') (w_rx w') /\ apps' = w_apps w' /\ calls = w_calls w').
+Proof.
+  intros H Hht. apply (C11Proofs.poll_inv A ops) in H. destruct H as (w' & H & -> & -> & ->).
+  apply (C11Proofs.poll_inner_cases A ops) in H.
+  destruct H as [(_ & Hs & _)|(_ & f0 & w0 & Hpro & Hb)]; [rewrite Hs in Hht; destruct Hht as [C|C]; discriminate C|].
+  assert (E0 : f0 = f /\ w0 = mkWorld (rx pin) None apps [] []).
+  { destruct Hht as [Hht|Hht]; [exact (prologue_have_token A _ _ _ _ Hpro Hht)|exact (prologue_in_pass A _ _ _ _ Hpro Hht)]. }
+  destruct E0 as (-> & ->).
+  unfold C11Proofs.body in Hb.
+  destruct (tx_busy pin || predicted f now) eqn:Eb.
+  - injection Hb as <- <-. left. cbn. apply orb_true_iff in Eb. repeat split; try reflexivity. exact Eb.
+  - apply orb_false_iff in Eb. destruct Eb as (Hbusy & Hpred).
+    destruct (check_for_bus_activity A f now _) as [f1 w1] eqn:Ec.
+    right. split; [exact Hbusy|]. split; [exact Hpred|]. exists f1, w1, w'. repeat split; try reflexivity. exact Hb.
+Qed.
+
+(* await_gap_poll_response when no telegram is taken from the buffer: exactly what happens to the bookkeeping *)
+Lemma agpr_none f now (w : W) a f' w' r :
+  await_gap_poll_response A f now w a = Ok (f', w', r) ->
+  r = GprWaiting \/ r = GprNoResponse ->
+  f_lba f' = Some (gv now (f_lba f)) /\ f_pending f' = Nat.min (f_pending f) (length (w_rx w')) /\ f_state f' = f_state f /\
+  f_p f' = f_p f /\ f_gap f' = f_gap f /\ f_ring f' = f_ring f /\
+  w_tx w' = w_tx w /\ w_calls w' = w_calls w /\ (exists k, w_rx w' = skipn k (w_rx w)) /\
+  (r = GprNoResponse <-> gv now (f_lba f) + slot_time (f_p f) < now).
+Proof.
+  unfold await_gap_poll_response. intros H Hr.
+  destruct (a =? ts f); [discriminate H|].
+  destruct (negb _); [discriminate H|].
+  destruct (receive_telegram (fun t => t) (w_rx w)) as [[rest received]| |] eqn:Er; cbn [bind] in H; try discriminate H.
+  destruct received as [t|].
+  - exfalso. destruct t as [[da sa d1 d2 [rq rt|st status]] pdu|da sa|]; try (destruct Hr as [C|C]; rewrite C in H; discriminate H).
+    destruct ((sa =? a) && (da =? ts (mark_rx f now))).
+    + destruct (resp_status_eqb status gap_reply_status && gap_reply_state_is_master st).
+      * destruct (set_next_station _ _); cbn [bind] in H; try discriminate H. destruct Hr as [C|C]; rewrite C in H; discriminate H.
+      * destruct Hr as [C|C]; rewrite C in H; discriminate H.
+    + destruct Hr as [C|C]; rewrite C in H; discriminate H.
+  - apply receive_telegram_suffix in Er.
+    revert H. generalize (Nat.ltb (length rest) (length (w_rx w))). intros c H.
+    unfold check_slot_expired, lba_get_or_insert, sync_pending_bytes in H. cbn in H.
+    destruct (f_lba f) as [l|] eqn:Hl; cbn [gv].
+    + unfold inst_add in H. destruct (i64_ok _); cbn [bind] in H; [|discriminate H].
+      change (f_p (set_pending f (Nat.min (f_pending f) (length rest)))) with (f_p f) in H.
+      destruct (l + slot_time (f_p f) <? now) eqn:Ex; injection H as <- <- <-; cbn;
+        (repeat (split; [first [reflexivity | exact Hl | exact Er | destruct c; reflexivity]|])).
+      * apply Z.ltb_lt in Ex. split; [intros _; exact Ex|reflexivity].
+      * apply Z.ltb_ge in Ex. split; [discriminate|lia].
+    + unfold inst_add in H. destruct (i64_ok _); cbn [bind] in H; [|discriminate H]. cbn in H.
+      destruct (now + slot_time (f_p f) <? now) eqn:Ex; injection H as <- <- <-; cbn;
+        (repeat (split; [first [reflexivity | exact Er | destruct c; reflexivity]|])).
+      * apply Z.ltb_lt in Ex. split; [intros _; exact Ex|reflexivity].
+      * apply Z.ltb_ge in Ex. split; [discriminate|lia].
+Qed.
+
+Lemma not_awaiting_scan a : ~ awaiting_state (ClaimToken StepScan) a.
+Proof. intros [C|C]; discriminate C. Qed.
+
+(* the Scan step of do_claim_token: pending_bytes and the buffer stay; a state that awaits a reply only with a request *)
+Lemma claim_scan_live f now (w : W) f' w' :
+  do_claim_token_scan A f now w = Ok (f', w') -> f_state f = ClaimToken StepScan ->
+  f_pending f' = f_pending f /\ w_rx w' = w_rx w /\ ((forall a, ~ awaiting_state (f_state f') a) \/ w_tx w' <> None).
+Proof.
+  unfold do_claim_token_scan. intros H Es.
+  destruct (wait_synchronization_pause f now) as [[f1 wait]| |] eqn:Ew; cbn [bind] in H; try discriminate H.
+  apply wait_sync_same in Ew. destruct Ew as ((_ & _ & _ & _ & Hs1 & Hpd1 & _) & _).
+  destruct wait.
+  { injection H as <- <-. split; [exact Hpd1|]. split; [reflexivity|]. left. intros a. rewrite Hs1, Es. apply not_awaiting_scan. }
+  destruct (f_gap f1) as [rc|cur].
+  - match type of H with bind ?x _ = _ => destruct x as [[f2 w2]| |] eqn:Et end; cbn [bind] in H; try discriminate H.
+    injection H as <- <-. apply trans_spec in Et. destruct Et as (s2 & Ht & -> & ->). split; [exact Hpd1|]. split; [reflexivity|].
+    left. intros a. cbn [set_st f_state]. rewrite Hs1, Es in Ht. cbn in Ht. injection Ht as <-. intros [C|C]; discriminate C.
+  - destruct (next_gap_poll_traced A f1 w cur) as [[f2 w2]| |] eqn:En; cbn [bind] in H; try discriminate H.
+    unfold next_gap_poll_traced in En. destruct (next_gap_poll f1 cur) as [g2| |]; cbn [bind] in En; try discriminate En.
+    injection En as <- <-.
+    destruct (transmit_gap_poll_if_pending A _ now _) as [[[f3 w3] polled]| |] eqn:Eg; cbn [bind] in H; try discriminate H.
+    unfold transmit_gap_poll_if_pending in Eg. cbn [f_gap set_gap] in Eg. destruct g2 as [rc|c2].
+    + injection Eg as <- <- <-. injection H as <- <-. split; [exact Hpd1|]. split; [reflexivity|]. left. intros a.
+      cbn. rewrite Hs1, Es. apply not_awaiting_scan.
+    + destruct (c2 =? _); [discriminate Eg|].
+      destruct (phy_send A _ _) as [[w4 k]| |] eqn:Ep; cbn [bind] in Eg; try discriminate Eg.
+      destruct (mark_tx _ now k) as [f4| |] eqn:Em; cbn [bind] in Eg; try discriminate Eg.
+      injection Eg as <- <- <-. apply mark_tx_spec in Em. subst f4.
+      apply phy_send_spec in Ep. destruct Ep as (_ & wire & Htx & _ & Hrx & _). cbn in Hrx.
+      destruct (set_claim_step _ _) as [f5| |] eqn:Es5; cbn [bind] in H; try discriminate H.
+      apply set_claim_step_spec' in Es5. subst f5. injection H as <- <-. cbn.
+      split; [exact Hpd1|]. split; [exact Hrx|]. right. rewrite Htx. discriminate.
+Qed.
+
+Lemma ngpt_pending f (w : W) cur f' w' : next_gap_poll_traced A f w cur = Ok (f', w') -> f_pending f' = f_pending f.
+Proof.
+  unfold next_gap_poll_traced. destruct (next_gap_poll f cur); cbn [bind]; try discriminate. intros H. injection H as <- <-. reflexivity.
+Qed.
+
+Lemma tgp_pending f now (w : W) f' w' polled :
+  transmit_gap_poll_if_pending A f now w = Ok (f', w', polled) -> f_pending f' = f_pending f.
+Proof.
+  unfold transmit_gap_poll_if_pending. destruct (f_gap f) as [rc|cur].
+  - intros H. injection H as <- <- <-. reflexivity.
+  - destruct (cur =? ts f); [discriminate|].
+    destruct (phy_send A w _) as [[w1 k]| |]; cbn [bind]; try discriminate.
+    destruct (mark_tx f now k) as [f1| |] eqn:Em; cbn [bind]; try discriminate.
+    intros H. injection H as <- <- <-. apply mark_tx_spec in Em. subst f1. reflexivity.
+Qed.
+
+Lemma trans_pending f (w : W) t f' w' : trans A f w t = Ok (f', w') -> f_pending f' = f_pending f.
+Proof. intros H. apply trans_spec in H. destruct H as (s' & _ & -> & ->). reflexivity. Qed.
+
+(* do_pass_token never touches pending_bytes *)
+Lemma pass_token_pending f now (w : W) f' w' : do_pass_token A f now w = Ok (f', w') -> f_pending f' = f_pending f.
+Proof.
+  unfold do_pass_token. intros H.
+  destruct (assert_entry DoPassToken f); cbn [bind] in H; try discriminate H.
+  destruct (wait_synchronization_pause f now) as [[f1 wait]| |] eqn:Ew; cbn [bind] in H; try discriminate H.
+  apply wait_sync_same in Ew. destruct Ew as ((_ & _ & _ & _ & _ & Hpd1 & _) & _).
+  destruct wait; [injection H as <- <-; exact Hpd1|].
+  destruct (get_pass_token (f_state f1)) as [[dg att]| |]; cbn [bind] in H; try discriminate H.
+  match type of H with bind ?x _ = _ => destruct x as [[[f2 w2] polled]| |] eqn:E2 end; cbn [bind] in H; try discriminate H.
+  assert (Hpd2 : f_pending f2 = f_pending f1).
+  { destruct dg; [|injection E2 as <- _ _; reflexivity].
+    match type of E2 with bind ?x _ = _ => destruct x as [[f3 w3]| |] eqn:E3 end; cbn [bind] in E2; try discriminate E2.
+    apply tgp_pending in E2. rewrite E2.
+    destruct (f_gap f1) as [rc|cur].
+    - destruct (p_gap_wait (f_p f1) <? rc).
+      + exact (ngpt_pending _ _ _ _ _ E3).
+      + destruct (u8_add rc 1); cbn [bind] in E3; try discriminate E3. injection E3 as <- _. reflexivity.
+    - exact (ngpt_pending _ _ _ _ _ E3). }
+  destruct polled as [pa|].
+  - apply trans_pending in H. congruence.
+  - destruct (phy_send A w2 _) as [[w3 k]| |]; cbn [bind] in H; try discriminate H.
+    destruct (witness _ _ _) as [r| |]; cbn [bind] in H; try discriminate H.
+    match type of H with bind ?x _ = _ => destruct x as [[f4 w4]| |] eqn:E4 end; cbn [bind] in H; try discriminate H.
+    destruct (mark_tx f4 now k) as [f5| |] eqn:Em; cbn [bind] in H; try discriminate H. injection H as <- <-.
+    apply mark_tx_spec in Em. subst f5. cbn [f_pending set_lba].
+    assert (Hpd4 : f_pending f4 = f_pending f2).
+    { cbn [f_ring set_ring] in E4. destruct (r_ns r =? _).
+      - apply trans_pending in E4. exact E4.
+      - destruct (get_pass_token _) as [[x y]| |]; cbn [bind] in E4; try discriminate E4. apply trans_pending in E4. exact E4. }
+    congruence.
+Qed.
+
+Lemma awaiting_have_token s a : awaiting_state s a -> have_token s = true.
+Proof. intros [-> | ->]; reflexivity. Qed.
+
+(* A poll in a state that awaits a GAP reply, which stays in that state and transmits nothing: either the poll
+   ends at the check for an ongoing transmission, or the buffer is looked at and the slot time has not expired
+   - with the exact values of last_bus_activity and pending_bytes *)
+Lemma await_poll_exact f now pin (apps : list A) f' o apps' calls a l :
+  poll ops f now pin apps = Ok (f', o, apps', calls) -> awaiting_state (f_state f) a -> f_lba f = Some l ->
+  f_state f' = f_state f -> tx o = None ->
+  ((tx_busy pin = true \/ now <= l) /\ f_lba f' = Some (Z.max l now) /\ f_pending f' = f_pending f /\ rx_left o = rx pin) \/
+  (tx_busy pin = false /\ l < now /\
+   let l1 := if Nat.ltb (f_pending f) (length (rx pin)) then now else l in
+   f_lba f' = Some l1 /\ f_pending f' = length (rx_left o) /\ (exists k, rx_left o = skipn k (rx pin)) /\
+   ~ l1 + slot_time (f_p f) < now).
+Proof.
+  intros H Haw Hl Hst Htx.
+  destruct (token_poll_exact _ _ _ _ _ _ _ _ H (or_introl (awaiting_have_token _ _ Haw))) as
+    [(Hb & -> & _ & _ & _ & Hrx)|(Hbusy & Hpred & f1 & w1 & w' & Ec & Hd & -> & _ & _)].
+  - left. split.
+    + destruct Hb as [Hb|Hb]; [left; exact Hb|right]. unfold predicted in Hb. rewrite Hl in Hb. apply Z.leb_le in Hb. exact Hb.
+    + split; [|split; [|exact Hrx]].
+      * unfold mark_bus_activity, lba_get_or_insert. rewrite Hl. reflexivity.
+      * unfold mark_bus_activity, lba_get_or_insert. rewrite Hl. reflexivity.
+  - right. split; [exact Hbusy|]. unfold predicted in Hpred. rewrite Hl in Hpred. apply Z.leb_gt in Hpred. split; [exact Hpred|].
+    cbn [tx rx_left] in *.
+    unfold check_for_bus_activity in Ec. cbn [w_rx] in Ec.
+    set (l1 := if Nat.ltb (f_pending f) (length (rx pin)) then now else l).
+    assert (H1 : f_lba f1 = Some l1 /\ (length (rx pin) <= f_pending f1)%nat /\ f_state f1 = f_state f /\ f_p f1 = f_p f /\
+                 w_rx w1 = rx pin /\ w_tx w1 = None).
+    { subst l1. destruct (Nat.ltb_spec (f_pending f) (length (rx pin))); injection Ec as <- <-.
+      - unfold mark_bus_activity, lba_get_or_insert. rewrite Hl. cbn. split; [f_equal; lia|]. repeat split; reflexivity.
+      - repeat split; try reflexivity; assumption. }
+    clear Ec. destruct H1 as (Hl1 & Hpd1 & Hs1 & Hp1 & Hrx1 & Htx1). rewrite <- Hp1.
+    assert (Hnone : forall f2 w2 r, await_gap_poll_response A f1 now w1 a = Ok (f2, w2, r) -> r = GprWaiting \/ r = GprNoResponse ->
+      f_lba f2 = Some l1 /\ f_pending f2 = length (w_rx w2) /\ (exists k, w_rx w2 = skipn k (rx pin)) /\ f_state f2 = f_state f /\
+      w_tx w2 = None /\ (r = GprNoResponse <-> l1 + slot_time (f_p f1) < now)).
+    { intros f2 w2 r Ea Hr. destruct (agpr_none _ _ _ _ _ _ _ Ea Hr) as (L2 & P2 & S2 & _ & _ & _ & T2 & _ & (k & R2) & X2). rewrite Hl1 in L2, X2. cbn [gv] in L2, X2.
+      rewrite Hrx1 in R2. split; [exact L2|]. split; [|split; [exists k; exact R2|split; [congruence|split; [congruence|exact X2]]]].
+      rewrite P2. apply Nat.min_r. rewrite R2, skipn_length. lia. }
+    unfold C11Proofs.dispatch in Hd. rewrite Hs1 in Hd. rewrite <- Hs1 in Hst.
+    destruct Haw as [Es|Es]; rewrite Es in Hd; cbn [kind_of poll_dispatch] in Hd.
+    + unfold do_await_status_response, assert_entry in Hd. rewrite Hs1, Es in Hd.
+      cbn [kind_of do_fn_entry state_kind_eqb bind get_await_status_response_address] in Hd.
+      destruct (await_gap_poll_response A f1 now w1 a) as [[[f2 w2] r]| |] eqn:Ea; cbn [bind] in Hd; try discriminate Hd.
+      pose proof (await_gap_bk0 A now _ _ _ _ _ _ Ea) as (_ & Hs2).
+      destruct r.
+      * injection Hd as <- <-. destruct (Hnone _ _ _ eq_refl (or_introl eq_refl)) as (L2 & P2 & R2 & _ & _ & X2).
+        split; [exact L2|]. split; [exact P2|]. split; [exact R2|]. intros C. apply X2 in C. discriminate C.
+      * exfalso. destruct (trans A f2 w2 _) as [[f3 w3]| |] eqn:Et; cbn [bind] in Hd; try discriminate Hd.
+        apply trans_spec in Et. destruct Et as (s' & Ht & -> & ->). rewrite Hs2, Hs1, Es in Ht. cbn in Ht. injection Ht as <-.
+        destruct (C12Proofs.do_pass_token_spec A _ _ _ _ _ Hd) as (dg & att & Es3 & _ & _ & _ & _ & _ & [(_ & Hs & _)|[(Hdg & _)|(_ & _ & Htx3 & _)]]).
+        -- rewrite Hs in Hst. cbn [f_state set_st] in Hst. rewrite Hs1, Es in Hst. discriminate Hst.
+        -- cbn [f_state set_st] in Es3. injection Es3 as <- _. discriminate Hdg.
+        -- rewrite Htx3 in Htx. discriminate Htx.
+      * exfalso. apply trans_spec in Hd. destruct Hd as (s' & Ht & -> & _). rewrite Hs2, Hs1, Es in Ht. cbn in Ht. injection Ht as <-.
+        cbn [f_state set_st] in Hst. rewrite Hs1, Es in Hst. discriminate Hst.
+      * exfalso. apply trans_spec in Hd. destruct Hd as (s' & Ht & -> & _). rewrite Hs2, Hs1, Es in Ht. cbn in Ht. injection Ht as <-.
+        cbn [f_state set_st] in Hst. rewrite Hs1, Es in Hst. discriminate Hst.
+    + unfold do_claim_token, assert_entry in Hd. rewrite Hs1, Es in Hd.
+      cbn [kind_of do_fn_entry state_kind_eqb bind get_claim_token_step] in Hd.
+      destruct (await_gap_poll_response A f1 now w1 a) as [[[f2 w2] r]| |] eqn:Ea; cbn [bind] in Hd; try discriminate Hd.
+      pose proof (await_gap_bk0 A now _ _ _ _ _ _ Ea) as (_ & Hs2).
+      destruct r.
+      * injection Hd as <- <-. destruct (Hnone _ _ _ eq_refl (or_introl eq_refl)) as (L2 & P2 & R2 & _ & _ & X2).
+        split; [exact L2|]. split; [exact P2|]. split; [exact R2|]. intros C. apply X2 in C. discriminate C.
+      * exfalso. destruct (set_claim_step f2 StepScan) as [f3| |] eqn:Es3; cbn [bind] in Hd; try discriminate Hd.
+        apply set_claim_step_spec' in Es3. subst f3.
+        destruct (claim_scan_live _ _ _ _ _ Hd eq_refl) as (_ & _ & [Hna|Ht]).
+        -- apply (Hna a). right. rewrite Hst, Hs1. exact Es.
+        -- apply Ht. exact Htx.
+      * exfalso. destruct (set_claim_step f2 StepScan) as [f3| |] eqn:Es3; cbn [bind] in Hd; try discriminate Hd.
+        apply set_claim_step_spec' in Es3. subst f3. injection Hd as <- <-. cbn [f_state set_st] in Hst. rewrite Hs1, Es in Hst. discriminate Hst.
+      * exfalso. apply trans_spec in Hd. destruct Hd as (s' & Ht & -> & _). rewrite Hs2, Hs1, Es in Ht. cbn in Ht. injection Ht as <-.
+        cbn [f_state set_st] in Hst. rewrite Hs1, Es in Hst. discriminate Hst.
+Qed.
+
+(* ---- a state that awaits a GAP reply is entered with pending_bytes >= the bytes left in the buffer ---- *)
+
+Definition plb (f : fdl) (w : W) : Prop := (length (w_rx w) <= f_pending f)%nat.
+
+Lemma pass_token_plb f now (w : W) f' w' : do_pass_token A f now w = Ok (f', w') -> plb f w -> plb f' w'.
+Proof.
+  intros H P. unfold plb. rewrite (pass_token_pending _ _ _ _ _ H).
+  destruct (do_pass_token_frame A _ _ _ _ _ H) as (_ & _ & ->). exact P.
+Qed.
+
+Lemma use_token_plb f now (w : W) f' w' a :
+  do_use_token A ops f now w = Ok (f', w') -> plb f w -> awaiting_state (f_state f') a -> plb f' w'.
+Proof.
+  intros H P Haw. pose proof H as H0. rewrite do_use_token_split in H.
+  destruct (do_use_token_head A ops f now w) as [[f2 w2]| |] eqn:Eh; cbn [bind] in H; try discriminate H.
+  assert (Hst : exists tk fa fcd, f_state f = UseToken tk fa fcd).
+  { unfold do_use_token, assert_entry in H0. destruct (f_state f); cbn in H0; try discriminate H0. eauto. }
+  destruct Hst as (tk & fa & fcd & Es).
+  destruct (do_use_token_head_state A ops _ _ _ _ _ _ _ _ Eh Es) as (_ & _ & Hst2).
+  destruct (is_pass_token (f_state f2)) eqn:Ep.
+  - destruct (do_use_token_head_pass A ops _ _ _ _ _ Eh Ep) as (_ & _ & (_ & _ & _ & _ & Hpd & _ & Hrx & _)).
+    apply (pass_token_plb _ _ _ _ _ H). unfold plb. rewrite Hpd, Hrx. exact P.
+  - injection H as <- <-. exfalso.
+    destruct Hst2 as [(E & _)|[(fa' & E)|[(a1 & fa' & E)|E]]]; try (rewrite E in Haw; try rewrite Es in Haw; destruct Haw as [C|C]; discriminate C).
+Qed.
+
+Lemma await_data_plb f now (w : W) f' w' a :
+  do_await_data_response A ops f now w = Ok (f', w') -> plb f w -> awaiting_state (f_state f') a -> plb f' w'.
+Proof.
+  unfold do_await_data_response. intros H P Haw.
+  destruct (assert_entry DoAwaitDataResponse f) as [[]| |]; cbn [bind] in H; try discriminate H.
+  destruct (f_state f) as [ | | | | | |a0 tk fa| | | ] eqn:Es; cbn [get_await_data_response bind] in H; try discriminate H.
+  destruct (nth_error (w_apps w) (f_next_app f)) as [app|] eqn:En; [|discriminate H].
+  destruct (receive_telegram (fun t => t) (w_rx w)) as [[rest received]| |] eqn:Er; cbn [bind] in H; try discriminate H.
+  destruct received as [t|].
+  - exfalso. destruct (is_valid_response (mark_rx f now) a0 t).
+    + destruct (a_rx ops app now _ a0 t) as [app'| |]; cbn [bind] in H; try discriminate H.
+      match type of H with context [trans A ?a ?b ?c] => destruct (trans A a b c) as [[f1 w1]| |] eqn:Et end; cbn [bind] in H; try discriminate H.
+      unfold set_first_cycle_done in H. destruct (get_use_token (f_state f1)) as [[[x y] z]| |]; cbn [bind] in H; try discriminate H.
+      injection H as <- <-. destruct Haw as [C|C]; discriminate C.
+    + apply trans_spec in H. destruct H as (s' & Ht & -> & _). cbn [f_state set_st mark_rx mark_bus_activity] in *.
+      replace (f_state (mark_rx f now)) with (f_state f) in Ht by (unfold mark_rx, mark_bus_activity, lba_get_or_insert; cbn; destruct (f_lba f); reflexivity).
+      rewrite Es in Ht. cbn in Ht. injection Ht as <-. destruct Haw as [C|C]; discriminate C.
+  - apply receive_telegram_suffix in Er. destruct Er as (k & Er).
+    revert H. generalize (Nat.ltb (length rest) (length (w_rx w))). intros c H.
+    destruct (check_slot_expired _ now) as [[f2 ex]| |] eqn:Ec; cbn [bind] in H; try discriminate H.
+    apply check_slot_expired_same in Ec. destruct Ec as (Hp2 & _ & _ & _ & Hs2 & Hpd2 & _).
+    cbn [f_pending sync_pending_bytes set_pending f_state w_rx set_rx] in Hpd2, Hs2.
+    assert (P2 : (length rest <= f_pending f2)%nat).
+    { rewrite Hpd2. unfold plb in P. rewrite Er, skipn_length in *. lia. }
+    destruct ex.
+    + destruct (a_to ops app now _ a0) as [app'| |]; cbn [bind] in H; try discriminate H.
+      match type of H with context [trans A ?a ?b ?c] => destruct (trans A a b c) as [[f3 w3]| |] eqn:Et end; cbn [bind] in H; try discriminate H.
+      apply trans_spec in Et. destruct Et as (s' & _ & -> & ->).
+      unfold set_first_cycle_done in H. cbn [f_state set_st] in H. destruct (get_use_token s') as [[[x y] z]| |]; cbn [bind] in H; try discriminate H.
+      eapply use_token_plb; [exact H| |exact Haw]. unfold plb. cbn. destruct c; exact P2.
+    + injection H as <- <-. exfalso. rewrite Hs2, Es in Haw. destruct Haw as [C|C]; discriminate C.
+Qed.
+
+Lemma agpr_plb f now (w : W) a f' w' r :
+  await_gap_poll_response A f now w a = Ok (f', w', r) -> r = GprWaiting \/ r = GprNoResponse -> plb f w -> plb f' w'.
+Proof.
+  intros H Hr P. destruct (agpr_none _ _ _ _ _ _ _ H Hr) as (_ & P2 & _ & _ & _ & _ & _ & _ & (k & R2) & _).
+  unfold plb in *. rewrite P2. rewrite R2, skipn_length in *. lia.
+Qed.
+
+Lemma claim_token_plb f now (w : W) f' w' a :
+  do_claim_token A f now w = Ok (f', w') -> plb f w -> awaiting_state (f_state f') a -> plb f' w'.
+Proof.
+  unfold do_claim_token, assert_entry. intros H P Haw.
+  destruct (f_state f) as [ | | | | |st| | | | ] eqn:Es; cbn [kind_of do_fn_entry state_kind_eqb bind get_claim_token_step] in H; try discriminate H.
+  assert (Htok : forall nxt, nxt <> StepScanAwaitResponse a ->
+    (let* (f0, wait) := wait_synchronization_pause f now in
+     if wait then Ok (f0, note A w TSyncWait)
+     else let* (w0, n) := phy_send A w (TxToken (ts f0) (ts f0)) in
+          let f1 := set_ring f0 (claim_token (f_ring f0)) in
+          let* f2 := set_claim_step f1 nxt in
+          let f3 := set_gap f2 (GapDoPoll (ts f2)) in
+          let* f4 := mark_tx f3 now n in Ok (f4, note A w0 TClaimSendToken)) = Ok (f', w') ->
+    f_state f = ClaimToken StepFirstToken \/ f_state f = ClaimToken StepSecondToken -> False).
+  { intros nxt Hnxt H0 Hst.
+    destruct (wait_synchronization_pause f now) as [[f1 wait]| |] eqn:Ew; cbn [bind] in H0; try discriminate H0.
+    apply wait_sync_same in Ew. destruct Ew as ((_ & _ & _ & _ & Hs1 & _) & _).
+    destruct wait.
+    { injection H0 as <- <-. rewrite Hs1 in Haw. destruct Hst as [E|E]; rewrite E in Haw; destruct Haw as [C|C]; discriminate C. }
+    destruct (phy_send A w _) as [[w1 k]| |] eqn:Ep; cbn [bind] in H0; try discriminate H0.
+    destruct (set_claim_step _ nxt) as [f2| |] eqn:Es2; cbn [bind] in H0; try discriminate H0.
+    apply set_claim_step_spec' in Es2. subst f2.
+    match type of H0 with bind (mark_tx ?fx now k) _ = _ => destruct (mark_tx fx now k) as [f4| |] eqn:Em end; cbn [bind] in H0; try discriminate H0.
+    injection H0 as <- <-. apply mark_tx_spec in Em. subst f4. cbn in Haw. destruct Haw as [C|C]; [discriminate C|]. injection C as C. exact (Hnxt C). }
+  destruct st as [ | | |a0].
+  - exfalso. eapply Htok; [|exact H|left; exact Es]. discriminate.
+  - exfalso. eapply Htok; [|exact H|right; exact Es]. discriminate.
+  - destruct (claim_scan_live _ _ _ _ _ H Es) as (Hpd & Hrx & _). unfold plb. rewrite Hpd, Hrx. exact P.
+  - destruct (await_gap_poll_response A f now w a0) as [[[f1 w1] r]| |] eqn:Ea; cbn [bind] in H; try discriminate H.
+    pose proof (await_gap_bk0 A now _ _ _ _ _ _ Ea) as (_ & Hs1).
+    destruct r.
+    + injection H as <- <-. exact (agpr_plb _ _ _ _ _ _ _ Ea (or_introl eq_refl) P).
+    + pose proof (agpr_plb _ _ _ _ _ _ _ Ea (or_intror eq_refl) P) as P1.
+      destruct (set_claim_step f1 StepScan) as [f2| |] eqn:Es2; cbn [bind] in H; try discriminate H.
+      apply set_claim_step_spec' in Es2. subst f2.
+      destruct (claim_scan_live _ _ _ _ _ H eq_refl) as (Hpd & Hrx & _). unfold plb. rewrite Hpd, Hrx. exact P1.
+    + exfalso. destruct (set_claim_step f1 StepScan) as [f2| |] eqn:Es2; cbn [bind] in H; try discriminate H.
+      apply set_claim_step_spec' in Es2. subst f2. injection H as <- <-. exact (not_awaiting_scan a Haw).
+    + exfalso. apply trans_spec in H. destruct H as (s' & Ht & -> & _). rewrite Hs1, Es in Ht. cbn in Ht. injection Ht as <-.
+      destruct Haw as [C|C]; discriminate C.
+Qed.
+
+Lemma await_status_plb f now (w : W) f' w' a :
+  do_await_status_response A f now w = Ok (f', w') -> plb f w -> awaiting_state (f_state f') a -> plb f' w'.
+Proof.
+  unfold do_await_status_response, assert_entry. intros H P Haw.
+  destruct (f_state f) as [ | | | | | | | | |a0] eqn:Es; cbn [kind_of do_fn_entry state_kind_eqb bind get_await_status_response_address] in H; try discriminate H.
+  destruct (await_gap_poll_response A f now w a0) as [[[f2 w2] r]| |] eqn:Ea; cbn [bind] in H; try discriminate H.
+  pose proof (await_gap_bk0 A now _ _ _ _ _ _ Ea) as (_ & Hs2).
+  destruct r.
+  - injection H as <- <-. exact (agpr_plb _ _ _ _ _ _ _ Ea (or_introl eq_refl) P).
+  - exfalso. destruct (trans A f2 w2 _) as [[f3 w3]| |] eqn:Et; cbn [bind] in H; try discriminate H.
+    apply trans_spec in Et. destruct Et as (s' & Ht & -> & ->). rewrite Hs2, Es in Ht. cbn in Ht. injection Ht as <-.
+    destruct (C12Proofs.do_pass_token_spec A _ _ _ _ _ H) as (dg & att & Es3 & _ & _ & _ & _ & _ & [(_ & Hs & _)|[(Hdg & _)|(_ & _ & _ & Htp)]]).
+    + rewrite Hs in Haw. destruct Haw as [C|C]; discriminate C.
+    + cbn [f_state set_st] in Es3. injection Es3 as <- _. discriminate Hdg.
+    + destruct Htp as (_ & [(_ & Hs)|(_ & Hs)]); rewrite Hs in Haw; destruct Haw as [C|C]; discriminate C.
+  - exfalso. apply trans_spec in H. destruct H as (s' & Ht & -> & _). rewrite Hs2, Es in Ht. cbn in Ht. injection Ht as <-.
+    destruct Haw as [C|C]; discriminate C.
+  - exfalso. apply trans_spec in H. destruct H as (s' & Ht & -> & _). rewrite Hs2, Es in Ht. cbn in Ht. injection Ht as <-.
+    destruct Haw as [C|C]; discriminate C.
+Qed.
+
+(* a poll that enters (or re-enters) a state that awaits a GAP reply with a transmission leaves
+   pending_bytes >= the bytes left in the buffer *)
+Lemma entry_plb f now pin (apps : list A) f' o apps' calls a :
+  poll ops f now pin apps = Ok (f', o, apps', calls) -> awaiting_state (f_state f') a -> tx o <> None ->
+  (length (rx_left o) <= f_pending f')%nat.
+Proof.
+  intros H Haw Hn.
+  assert (Htok : (have_token (f_state f) = true /\ in_pass (f_state f) = false) \/ (exists dg att, f_state f = PassToken dg att) ->
+                 (length (rx_left o) <= f_pending f')%nat).
+  { intros Hht.
+    assert (Hht' : have_token (f_state f) = true \/ in_pass (f_state f) = true).
+    { destruct Hht as [(Hht & _)|(dg & att & Hht)]; [left; exact Hht|right; rewrite Hht; reflexivity]. }
+    destruct (token_poll_exact _ _ _ _ _ _ _ _ H Hht') as [(_ & _ & Htx & _)|(_ & _ & f1 & w1 & w' & Ec & Hd & -> & _ & _)]; [contradiction|].
+    cbn [tx rx_left] in *.
+    assert (P1 : plb f1 w1 /\ f_state f1 = f_state f).
+    { unfold check_for_bus_activity in Ec. cbn [w_rx] in Ec. unfold plb.
+      destruct (Nat.ltb_spec (f_pending f) (length (rx pin))); injection Ec as <- <-.
+      - split; [cbn; lia|]. unfold mark_bus_activity, lba_get_or_insert. cbn. destruct (f_lba f); reflexivity.
+      - split; [cbn; lia|reflexivity]. }
+    destruct P1 as (P1 & Hs1). unfold C11Proofs.dispatch in Hd. rewrite Hs1 in Hd.
+    clear Hht'. destruct (f_state f) eqn:Es; cbn [kind_of poll_dispatch] in Hd;
+      try (exfalso; destruct Hht as [(C1 & C2)|(dg0 & att0 & C)]; [cbn in C1, C2; first [discriminate C1|discriminate C2]|discriminate C]).
+    - exact (use_token_plb _ _ _ _ _ _ Hd P1 Haw).
+    - exact (claim_token_plb _ _ _ _ _ _ Hd P1 Haw).
+    - exact (await_data_plb _ _ _ _ _ _ Hd P1 Haw).
+    - exact (pass_token_plb _ _ _ _ _ Hd P1).
+    - exact (await_status_plb _ _ _ _ _ _ Hd P1 Haw). }
+  destruct (f_state f) as [ | |sr cc|sr nps cc|tk fa fcd|st|a1 tk fa|dg att|att|a0] eqn:Es.
+  - exfalso. eapply (idle_poll_not_awaiting A ops); [exact H|rewrite Es; reflexivity|rewrite Es; reflexivity|exact Haw].
+  - exfalso. eapply (idle_poll_not_awaiting A ops); [exact H|rewrite Es; reflexivity|rewrite Es; reflexivity|exact Haw].
+  - exfalso. eapply (idle_poll_not_awaiting A ops); [exact H|rewrite Es; reflexivity|rewrite Es; reflexivity|exact Haw].
+  - exfalso. eapply (idle_poll_not_awaiting A ops); [exact H|rewrite Es; reflexivity|rewrite Es; reflexivity|exact Haw].
+  - apply Htok. left. split; reflexivity.
+  - apply Htok. left. split; reflexivity.
+  - apply Htok. left. split; reflexivity.
+  - apply Htok. right. eauto.
+  - exfalso. destruct (check_pass_poll A ops _ _ _ _ _ _ _ _ _ Es H) as (_ & _ & _ & Hc).
+    destruct (slot_expired f now pin).
+    + destruct Hc as (_ & r1 & _ & [(_ & E & _)|(r' & _ & _ & _ & E)]); rewrite E in Haw.
+      * destruct Haw as [C|C]; discriminate C.
+      * destruct (r_ns r' =? ts f); destruct Haw as [C|C]; discriminate C.
+    + destruct Hc as (_ & _ & Hc). destruct (tx_busy pin || predicted f now).
+      * destruct Hc as (E & _). rewrite E in Haw. destruct Haw as [C|C]; discriminate C.
+      * destruct (DecodeSpec.decode_spec (rx pin)).
+        -- destruct Hc as (E & _). rewrite E in Haw. destruct Haw as [C|C]; discriminate C.
+        -- destruct Hc as (E & _). rewrite E in Haw. destruct Haw as [C|C]; discriminate C.
+        -- exact (heard_not_awaiting _ _ Hc Haw).
+  - apply Htok. left. split; reflexivity.
+Qed.
+
+End LiveModel.
+
+(* ------------------------------------------------------------------------------------------ *)
+(* the simulation: l_ref of the second monitor never lags behind last_bus_activity of the model  *)
+
+Section Live.
+Variable A : Type.
+Variable ops : app_ops A.
+Variable p : params.
+Variable n : nat.
+
+(* In a state that awaits a GAP reply: the reference instant of the monitor is not earlier than
+   last_bus_activity; the predicted end of the last transmission is not later; last_bus_activity is that end or
+   lies before the last poll; and unless the monitor expects a spurious growth of the buffer, pending_bytes is
+   the number of bytes in the buffer. *)
+Definition LW (f : fdl) (buf : bytes) (tl : Z) (g : mon2) : Prop :=
+  forall a, awaiting_state (f_state f) a ->
+  exists l r, f_lba f = Some l /\ l_ref g = Some r /\ l <= r /\
+    (forall e, l_txend g = Some e -> e <= l) /\ (l <= tl \/ l_txend g = Some l) /\
+    (l_spur g = false -> (length buf <= f_pending f)%nat).
+
+Lemma view_awaiting f : 
+  (kind_of (f_state f) = KAwaitStatusResponse \/ (kind_of (f_state f) = KClaimToken /\ v_scan_await (view_of f) = true)) ->
+  exists a, awaiting_state (f_state f) a.
+Proof.
+  unfold view_of. cbn [v_scan_await]. intros [H|(H1 & H2)].
+  - destruct (f_state f); try discriminate H. eexists. left. reflexivity.
+  - destruct (f_state f) as [ | | | | |st| | | | ]; try discriminate H1. destruct st; try discriminate H2. eexists. right. reflexivity.
+Qed.
+
+Lemma skeqb_eq k k' : state_kind_eqb k k' = true <-> k = k'.
+Proof. split; [destruct k, k'; intros H; try discriminate H; reflexivity|intros <-; destruct k; reflexivity]. Qed.
+
+Lemma lw_poll f apps buf tl m g now busy nb f' o apps' calls :
+  Base A p n f apps buf tl m -> LW f buf tl g -> tl < now ->
+  poll ops f now (mkPhyIn busy (buf ++ nb)) apps = Ok (f', o, apps', calls) ->
+  let s := poll_event now busy (buf ++ nb) f' o calls in
+  (y_quiet m g s && y_expired p g s && negb (y_acted m s) = true -> y_waiting_c12 m = false) /\
+  LW f' (rx_left o) now (y_g' p n m g s).
+Proof.
+  intros HB HL Hlt E s.
+  destruct HB as [R Hp Hn Hv Hl Hpd Hb Htl]. rewrite Hn in R.
+  set (rxb := buf ++ nb) in *.
+  assert (Hgrew : y_grew m s = Nat.ltb (length buf) (length rxb)) by (unfold y_grew; rewrite Hl; reflexivity).
+  assert (Hcons : y_consumed s = negb (Nat.eqb (length rxb - length (rx_left o)) 0)) by reflexivity.
+  assert (Hong : y_ongoing g s = match l_txend g with Some e => now <=? e | None => false end) by reflexivity.
+  assert (Hlooks : y_looks g s = negb busy && negb (y_ongoing g s)) by reflexivity.
+  assert (Hspn : y_spur_now g s = l_spur g && y_looks g s && match rxb with [] => false | _ => true end) by reflexivity.
+  assert (Hhap : y_happened m g s = y_grew m s || busy || y_consumed s || y_spur_now g s) by reflexivity.
+  assert (Href1 : y_ref1 m g s = if y_happened m g s then Some (zmax_opt (l_ref g) now)
+                                 else match l_ref g with Some r => Some r | None => Some now end) by reflexivity.
+  assert (Hrep_l : forall a l r, awaiting_state (f_state f) a -> f_state f' = f_state f -> tx o = None -> f_lba f = Some l ->
+    l_ref g = Some r -> l <= r -> (forall e, l_txend g = Some e -> e <= l) -> (l <= tl \/ l_txend g = Some l) ->
+    (l_spur g = false -> (length buf <= f_pending f)%nat) ->
+    ((busy = true \/ now <= l) /\ f_lba f' = Some (Z.max l now) /\ f_pending f' = f_pending f /\ rx_left o = rxb /\ y_looks g s = false) \/
+    (busy = false /\ l < now /\ y_looks g s = true /\
+     let l1 := if Nat.ltb (f_pending f) (length rxb) then now else l in
+     f_lba f' = Some l1 /\ f_pending f' = length (rx_left o) /\ (exists k, rx_left o = skipn k rxb) /\
+     ~ l1 + slot_time p < now)).
+  { intros a l r Haw Hst Htx Hlba Hr Hlr He Hlt2 Hsp.
+    destruct (await_poll_exact A ops _ _ _ _ _ _ _ _ _ _ E Haw Hlba Hst Htx) as [(Hb1 & L1 & P1 & R1)|(Hb1 & Hl1 & L1 & P1 & R1 & X1)]; cbn [tx_busy rx] in *.
+    - left. split; [exact Hb1|]. split; [exact L1|]. split; [exact P1|]. split; [exact R1|].
+      rewrite Hlooks. destruct Hb1 as [->|Hb1]; [reflexivity|].
+      destruct Hlt2 as [C|C]; [lia|]. rewrite Hong, C. destruct (Z.leb_spec now l); [|lia]. destruct busy; reflexivity.
+    - right. split; [exact Hb1|]. split; [exact Hl1|]. split.
+      + rewrite Hlooks, Hong, Hb1. destruct (l_txend g) as [e|] eqn:Ee; [|reflexivity].
+        pose proof (He e eq_refl). destruct (Z.leb_spec now e); [lia|reflexivity].
+      + rewrite Hp in X1. cbv zeta. split; [exact L1|]. split; [exact P1|]. split; [exact R1|exact X1]. }
+  split.
+  - intros Hq. destruct (y_waiting_c12 m) eqn:Ew; [exfalso|reflexivity].
+    apply andb_true_iff in Hq. destruct Hq as (Hq & Hact). apply andb_true_iff in Hq. destruct Hq as (Hq & Hexp).
+    unfold y_quiet in Hq. apply andb_true_iff in Hq. destruct Hq as (Hq & Hnsp). apply andb_true_iff in Hq. destruct Hq as (Hlk & Hng).
+    apply negb_true_iff in Hnsp, Hng, Hact.
+    unfold y_acted in Hact.
+    apply orb_false_iff in Hact. destruct Hact as (Hact & Hc5). apply orb_false_iff in Hact. destruct Hact as (Hact & Hc4).
+    apply orb_false_iff in Hact. destruct Hact as (Hact & Hc3). apply orb_false_iff in Hact. destruct Hact as (Hc1 & Hc2).
+    change (y_k0 m) with (v_kind (m_view m)) in *. rewrite Hv in *. cbn [view_of v_kind] in *.
+    change (y_k1 s) with (kind_of (f_state f')) in *. change (y_post s) with (view_of f') in *.
+    apply negb_false_iff, skeqb_eq in Hc2.
+    assert (Htx : tx o = None) by (change (s_tx s) with (tx o) in Hc3; destruct (tx o); [discriminate Hc3|reflexivity]).
+    unfold y_waiting_c12 in Ew. change (y_k0 m) with (v_kind (m_view m)) in Ew. change (y_pre m) with (m_view m) in Ew.
+    rewrite Hv in Ew. change (v_kind (view_of f)) with (kind_of (f_state f)) in Ew.
+    assert (Hk0 : kind_of (f_state f) = KAwaitStatusResponse \/ (kind_of (f_state f) = KClaimToken /\ v_scan_await (view_of f) = true)).
+    { apply orb_true_iff in Ew. destruct Ew as [Ew|Ew]; [left; apply skeqb_eq; exact Ew|right].
+      apply andb_true_iff in Ew. destruct Ew as (E1 & E2). split; [apply skeqb_eq; exact E1|exact E2]. }
+    destruct (view_awaiting f Hk0) as (a & Haw).
+    assert (Hk1 : kind_of (f_state f') = KAwaitStatusResponse \/ (kind_of (f_state f') = KClaimToken /\ v_scan_await (view_of f') = true)).
+    { destruct Hk0 as [Hk0|(Hk0 & _)]; [left; congruence|right]. split; [congruence|].
+      rewrite Hk0 in Hc5. cbn [state_kind_eqb andb] in Hc5. apply negb_false_iff in Hc5. exact Hc5. }
+    destruct (view_awaiting f' Hk1) as (a' & Haw').
+    pose proof (await_entry A ops n _ _ _ _ _ _ _ _ _ E R Haw' Htx) as Hst.
+    destruct (HL a Haw) as (l & r & Hlba & Hr & Hlr & He & Hlt2 & Hsp).
+    unfold y_expired in Hexp. rewrite Hr in Hexp. change (y_now s) with now in Hexp. apply Z.ltb_lt in Hexp.
+    destruct (Hrep_l a l r Haw Hst Htx Hlba Hr Hlr He Hlt2 Hsp) as [(_ & _ & _ & _ & C)|(_ & Hl1 & _ & X)]; [congruence|].
+    cbv zeta in X. destruct X as (_ & _ & _ & X). apply X.
+    rewrite Hgrew in Hng. apply Nat.ltb_ge in Hng.
+    assert (Hge : (length rxb <= f_pending f)%nat).
+    { destruct (l_spur g) eqn:Esp.
+      - rewrite Hspn, Hlk in Hnsp. cbn [andb] in Hnsp. destruct rxb; [cbn; lia|discriminate Hnsp].
+      - pose proof (Hsp eq_refl). lia. }
+    apply Nat.ltb_ge in Hge. rewrite Hge. lia.
+  - intros a Haw'. change (l_ref (y_g' p n m g s)) with (y_ref2 p m g s). change (l_txend (y_g' p n m g s)) with (y_txend p g s).
+    change (l_spur (y_g' p n m g s)) with (y_spur m g s).
+    destruct (tx o) as [wire|] eqn:Etx.
+    + pose proof (poll_lba_case A ops _ _ _ _ _ _ _ _ _ E) as LC. rewrite Etx in LC.
+      destruct LC as [wire0 l0 Hw L' _ _ _ _|C _|C _|C _ _|C _ _]; try discriminate C.
+      injection Hw as <-. rewrite Hp in L'.
+      set (e := now + dur p (length wire)) in *.
+      assert (Hte : y_tx_end p s = Some e).
+      { unfold y_tx_end. change (s_tx s) with (tx o). rewrite Etx. change (y_now s) with now. rewrite dur_is_prop. reflexivity. }
+      exists e, (zmax_opt (y_ref1 m g s) e). split; [exact L'|]. unfold y_ref2, y_txend. rewrite Hte. split; [reflexivity|].
+      split; [unfold zmax_opt; destruct (y_ref1 m g s); lia|]. split; [intros e0 H0; injection H0 as <-; lia|]. split; [right; reflexivity|].
+      intros _. apply (entry_plb A ops _ _ _ _ _ _ _ _ _ E Haw'). rewrite Etx. discriminate.
+    + pose proof (await_entry A ops n _ _ _ _ _ _ _ _ _ E R Haw' Etx) as Hst.
+      assert (Haw : awaiting_state (f_state f) a) by (rewrite <- Hst; exact Haw').
+      destruct (HL a Haw) as (l & r & Hlba & Hr & Hlr & He & Hlt2 & Hsp).
+      assert (Hte : y_tx_end p s = None) by (unfold y_tx_end; change (s_tx s) with (tx o); rewrite Etx; reflexivity).
+      unfold y_ref2, y_txend. rewrite Hte.
+      assert (Hr' : y_ref1 m g s = Some (if y_happened m g s then Z.max r now else r)).
+      { rewrite Href1, Hr. destruct (y_happened m g s); reflexivity. }
+      rewrite Hr'.
+      destruct (Hrep_l a l r Haw Hst eq_refl Hlba Hr Hlr He Hlt2 Hsp) as [(Hb1 & L1 & P1 & R1 & Hlk)|(Hb1 & Hl1 & Hlk & X)].
+      * exists (Z.max l now), (if y_happened m g s then Z.max r now else r). split; [exact L1|]. split; [reflexivity|].
+        split.
+        { destruct Hb1 as [Hb1|Hb1].
+          - assert (Hh : y_happened m g s = true) by (rewrite Hhap, Hb1; destruct (y_grew m s); reflexivity). rewrite Hh. lia.
+          - destruct (y_happened m g s); lia. }
+        split; [intros e0 H0; pose proof (He e0 H0); lia|].
+        split.
+        { destruct (Z.le_gt_cases l now); [left; lia|right]. destruct Hlt2 as [C|C]; [lia|]. rewrite Z.max_l by lia. exact C. }
+        rewrite R1, P1. unfold y_spur. rewrite Hcons, R1, Nat.sub_diag. cbn [Nat.eqb negb]. rewrite Hlk. intros Hs0.
+        apply orb_false_iff in Hs0. destruct Hs0 as (Hs1 & Hs2). rewrite Hgrew in Hs2. apply Nat.ltb_ge in Hs2.
+        pose proof (Hsp Hs1). lia.
+      * cbv zeta in X. destruct X as (L1 & P1 & R1 & _).
+        exists (if Nat.ltb (f_pending f) (length rxb) then now else l), (if y_happened m g s then Z.max r now else r).
+        split; [exact L1|]. split; [reflexivity|].
+        split.
+        { destruct (Nat.ltb_spec (f_pending f) (length rxb)) as [Hact|Hact]; [|destruct (y_happened m g s); lia].
+          assert (Hh : y_happened m g s = true).
+          { rewrite Hhap, Hgrew. destruct (Nat.ltb_spec (length buf) (length rxb)) as [Eg|Eg]; [reflexivity|].
+            destruct (l_spur g) eqn:Esp; [|pose proof (Hsp eq_refl); lia].
+            rewrite Hspn, Hlk. destruct rxb; [cbn in Hact; lia|]. cbn [andb]. rewrite !orb_true_r. reflexivity. }
+          rewrite Hh. lia. }
+        split; [intros e0 H0; pose proof (He e0 H0); destruct (Nat.ltb (f_pending f) (length rxb)); lia|].
+        split; [left; destruct (Nat.ltb (f_pending f) (length rxb)); lia|].
+        intros _. rewrite P1. lia.
+Qed.
+
+Lemma not_awaiting_offline f buf tl g : f_state f = Offline -> LW f buf tl g.
+Proof. intros Hs a [C|C]; rewrite Hs in C; discriminate C. Qed.
+
+Lemma fdl_new_offline q f0 : fdl_new q = Ok f0 -> f_state f0 = Offline.
+Proof.
+  unfold fdl_new. destruct (negb _); [discriminate|]. destruct (negb _); [discriminate|].
+  destruct (ring_new _); cbn [bind]; try discriminate. intros H. injection H as <-. reflexivity.
+Qed.
+
+Lemma lw_api a f f' buf tl m g : LW f buf tl g -> api_result p a f = Ok f' ->
+  LW f' buf tl (snd (mon_after_api a (view_of f') m g)).
+Proof.
+  intros HL E. destruct a; cbn [api_result mon_after_api snd] in *.
+  - apply not_awaiting_offline. exact (fdl_new_offline _ _ E).
+  - unfold set_online, set_state in E. injection E as <-. exact HL.
+  - apply not_awaiting_offline. unfold set_offline, set_state in E. exact (fdl_new_offline _ _ E).
+  - discriminate E.
+Qed.
+
+Lemma lw_init f0 : fdl_new p = Ok f0 -> LW f0 [] 0 mon2_reset.
+Proof. intros E. apply not_awaiting_offline. exact (fdl_new_offline _ _ E). Qed.
+
+End Live.
+
+(* ------------------------------------------------------------------------------------------ *)
+(* the induction once more, with the liveness simulation: what remains open are the liveness rules of C11    *)
+(* and C15 and R05_panic                                                                             *)
+
+Definition open_rules3_req : list rule := [R05_panic; R11_supervision_never_ends; R15_no_reply_no_timeout].
+Definition open_rules3 : list rule :=
+  [R12_reply_without_request; R12_reply_untruthful; R12_reply_from_wrong_state] ++ open_rules3_req.
+
+Ltac in_leaf3 := unfold may_fire, open_rules3, open_rules3_req; cbn; repeat (first [left; reflexivity | right]).
+
+Section Master3.
+Variable A : Type.
+Variable ops : app_ops A.
+Variable p : params.
+Hypothesis Happs : apps_total A ops.
+Hypothesis Hbv : builder_valid p.
+Hypothesis Hdata : app_sends_data A ops.
+
+Definition JC (n : nat) (f : fdl) (apps : list A) (buf : bytes) (tl : Z) (m : mon) (g : mon2) : Prop :=
+  JB A p n f apps buf tl m g /\ LW f buf tl g.
+
+Lemma x_e12b_open3 m s : onlyr (may_fire open_rules3) (x_e12b p m s).
+Proof. unfold x_e12b. cbv zeta. solve_onlyr in_leaf3. Qed.
+
+Lemma y_e_live_open3 l m g s :
+  (y_quiet m g s && y_expired p g s && negb (y_acted m s) = true -> y_waiting_c12 m = false) ->
+  (forall r, In r open_rules3_req -> In r l) -> onlyr (may_fire l) (y_e_live p m g s).
+Proof.
+  intros Hw Hl. unfold y_e_live. destruct (y_quiet m g s && y_expired p g s && negb (y_acted m s)) eqn:Ec; [|apply onlyr_nil].
+  rewrite (Hw eq_refl). solve_onlyr ltac:(apply Hl; in_leaf3).
+Qed.
+
+Lemma JC_init n f0 apps : fdl_new p = Ok f0 -> length apps = n -> JC n f0 apps [] 0 (mon_reset (view_of f0) 0) mon2_reset.
+Proof. intros E Hn. split; [exact (JB_init A p Hbv n f0 apps E Hn)|exact (lw_init p f0 E)]. Qed.
+
+Lemma JC_api n a f apps buf tl m g f' :
+  JC n f apps buf tl m g -> api_result p a f = Ok f' ->
+  JC n f' apps buf tl (fst (mon_after_api a (view_of f') m g)) (snd (mon_after_api a (view_of f') m g)).
+Proof. intros (HJ & HL) E. split; [exact (JB_api A p Hbv n a f apps buf tl m g f' HJ E)|exact (lw_api p a f f' buf tl m g HL E)]. Qed.
+
+Lemma JC_poll n f apps buf tl m g now busy nb f' o apps' calls :
+  length apps = n ->
+  JC n f apps buf tl m g -> tl < now -> time_ok now -> all_bytes nb ->
+  poll ops f now (mkPhyIn busy (buf ++ nb)) apps = Ok (f', o, apps', calls) ->
+  let s := poll_event now busy (buf ++ nb) f' o calls in
+  snd (mon_poll p n m s) = x_e12b p m s /\
+  snd (mon_poll2 p n m g s) = y_e_live p m g s /\
+  (y_quiet m g s && y_expired p g s && negb (y_acted m s) = true -> y_waiting_c12 m = false) /\
+  JC n f' apps' (rx_left o) now (fst (mon_poll p n m s)) (fst (mon_poll2 p n m g s)) /\
+  Base A p n f apps buf tl m /\ FdlOracleSound11.RQ f m.
+Proof.
+  intros Hlen (HJ & HL) Hlt Hnow Hnb E s.
+  destruct (JB_poll A ops p Happs Hbv Hdata n f apps buf tl m g now busy nb f' o apps' calls Hlen HJ Hlt Hnow Hnb E) as (H1 & H2 & HJ' & HB & HR).
+  destruct (lw_poll A ops p n f apps buf tl m g now busy nb f' o apps' calls HB HL Hlt E) as (Hw & HL').
+  fold s in H1, H2, HJ', Hw, HL'.
+  split; [exact H1|]. split; [exact H2|]. split; [exact Hw|]. split; [|split; assumption].
+  split; [exact HJ'|]. rewrite mon_poll2_eq. cbn [fst]. exact HL'.
+Qed.
+
+(* ORACLE SOUNDNESS for the monitors of the FDL layer including the liveness rule of C12. *)
+Theorem fdl_oracle_sound3 (apps : list A) (ins : list minput) :
+  ins_ok 0 ins ->
+  forall k r, In (k, r) (monitor p (length apps) (model_transcript A ops p apps ins)) -> In r open_rules3.
+Proof.
+  intros Hok.
+  apply (generic_sound_transcript A ops p (length apps) (may_fire open_rules3) (JC (length apps)) (fun _ => True)); try assumption; try reflexivity.
+  - in_leaf3.
+  - intros a f apps0 buf tl m g f' HJ E _. exact (JC_api _ _ _ _ _ _ _ _ _ HJ E).
+  - intros f apps0 buf tl m g now busy nb f' o apps' calls HJ Hlt Hnow Hnb E _.
+    assert (Hlen : length apps0 = length apps) by (destruct HJ as ((HJ & _) & _); exact (b_n _ _ _ _ _ _ _ _ (JA_base _ _ _ _ _ _ _ _ _ HJ))).
+    destruct (JC_poll _ _ _ _ _ _ _ _ _ _ _ _ _ _ Hlen HJ Hlt Hnow Hnb E) as (H1 & H2 & Hw & HJ' & _).
+    split; [|split; [|exact HJ']].
+    + rewrite H1. apply x_e12b_open3.
+    + rewrite H2. apply y_e_live_open3; [exact Hw|]. intros r Hr. unfold open_rules3. apply in_or_app. right. exact Hr.
+  - intros f0 apps0 E Hn _. exact (JC_init _ _ _ E Hn).
+  - apply transcript_ok_true.
+Qed.
+
+Theorem fdl_oracle_sound3_req (apps : list A) (ins : list minput) :
+  app_sends_requests A ops -> ins_ok 0 ins ->
+  forall k r, In (k, r) (monitor p (length apps) (model_transcript A ops p apps ins)) -> In r open_rules3_req.
+Proof.
+  intros Hreq Hok.
+  apply (generic_sound_transcript A ops p (length apps) (may_fire open_rules3_req) (JC (length apps)) (fun _ => True)); try assumption; try reflexivity.
+  - in_leaf3.
+  - intros a f apps0 buf tl m g f' HJ E _. exact (JC_api _ _ _ _ _ _ _ _ _ HJ E).
+  - intros f apps0 buf tl m g now busy nb f' o apps' calls HJ Hlt Hnow Hnb E _.
+    assert (Hlen : length apps0 = length apps) by (destruct HJ as ((HJ & _) & _); exact (b_n _ _ _ _ _ _ _ _ (JA_base _ _ _ _ _ _ _ _ _ HJ))).
+    destruct (JC_poll _ _ _ _ _ _ _ _ _ _ _ _ _ _ Hlen HJ Hlt Hnow Hnb E) as (H1 & H2 & Hw & HJ' & HB & HR).
+    split; [|split; [|exact HJ']].
+    + rewrite H1. rewrite (e12b_ok A ops p (length apps) Hdata Hreq _ _ _ _ _ _ _ _ _ _ _ _ HB HR E). intros r [].
+    + rewrite H2. apply y_e_live_open3; [exact Hw|]. auto.
+  - intros f0 apps0 E Hn _. exact (JC_init _ _ _ E Hn).
+  - apply transcript_ok_true.
+Qed.
+
+(* the liveness rule of C12 *)
+Corollary c12_oracle_sound_gap_wait (apps : list A) (ins : list minput) :
+  ins_ok 0 ins ->
+  forall k r, In (k, r) (monitor p (length apps) (model_transcript A ops p apps ins)) -> r <> R12_gap_wait_never_ends.
+Proof.
+  intros Hok k r Hin ->. pose proof (fdl_oracle_sound3 _ _ Hok _ _ Hin) as H. unfold open_rules3, open_rules3_req in H. cbn in H.
+  repeat (destruct H as [H|H]; [discriminate H|]). contradiction.
+Qed.
+
+(* C12 complete: no rule of C12 fires on a transcript of the model *)
+Corollary c12_oracle_sound (apps : list A) (ins : list minput) :
+  app_sends_requests A ops -> ins_ok 0 ins ->
+  forall k r, In (k, r) (monitor p (length apps) (model_transcript A ops p apps ins)) -> rule_prop r <> PC12.
+Proof.
+  intros Hreq Hok k r Hin Hp. pose proof (fdl_oracle_sound3_req _ _ Hreq Hok _ _ Hin) as H. unfold open_rules3_req in H. cbn in H.
+  repeat (destruct H as [<-|H]; [discriminate Hp|]). contradiction.
+Qed.
+
+End Master3.
